@@ -152,8 +152,20 @@ EDGE = [{"exclusiveMinimum": 0}, {"minimum": 0, "exclusiveMinimum": True}, {"min
         {"minimum": 0, "exclusiveMinimum": True, "maximum": 100, "exclusiveMaximum": True}, {"minimum": -10, "exclusiveMinimum": True, "maximum": 10}]
 
 
+# multipleOf at its own boundary constants (1 is a real constraint for number, a vacuous one for integer), alone and next to bounds
+MULT = [{"type": "number", "multipleOf": 1}, {"type": "number", "multipleOf": 1, "minimum": 0}, {"type": "number", "multipleOf": 1, "maximum": 10, "exclusiveMinimum": -10},
+        {"type": "number", "multipleOf": 2}, {"type": "number", "multipleOf": 0.25}, {"type": "number", "multipleOf": 10}, {"type": "integer", "multipleOf": 1},
+        {"type": "integer", "multipleOf": 10}, {"type": "integer", "multipleOf": 1, "maximum": 5}, {"type": "integer", "multipleOf": 1, "minimum": 1}]
+
+
 def e2e_edges():
-    return wrap_positions([(dict(s, type="integer"), pos) for s in EDGE for pos in ("required", "optional", "nullable")])
+    from vlib.valuecheck import collide_root
+    coll = []
+    for a, b in (({"minimum": 1, "maximum": 5}, {"minimum": 3, "maximum": 9}), ({"exclusiveMinimum": 0}, {"exclusiveMaximum": 0}), ({"multipleOf": 2}, {"multipleOf": 3})):
+        coll.append(collide_root(dict(a, type="integer"), dict(b, type="integer"), key="n"))
+        coll.append(collide_root(dict(b, type="number"), dict(a, type="number"), key="n", required=True))
+    return coll + (wrap_positions([(dict(s, type="integer"), pos) for s in EDGE for pos in ("required", "optional", "nullable")])
+            + wrap_positions([(dict(s), pos) for s in MULT for pos in ("required", "optional", "nullable")]))
 
 
 def e2e_fractional():
